@@ -8,7 +8,8 @@ from storelib import check_store_cases
 RULE = ('(A) exhaustive quarter-LSB sweep of every format with n_word<=3 (quick) / <=6 (thorough) under wrap, all 5 rounding modes; (B) random core formats up to 52 bits, '
         'values up to 3x the range on both sides; (C) period pairs v and v+k*2^(n_word-n_frac) (floor/ceil/around always; trunc/fix when integral or same side of zero); '
         '(D) n_word 64..256 with Python integers of up to 4x the word length, raw and value mode, compared with Spec.wrap_res and with the model object path; '
-        '(E) register arithmetic: results of + - * stored with wrap into a fixed format, chains of up to 6 operations, widths 2..100. '
+        '(E) register arithmetic: results of + - * stored with wrap into a fixed format, chains of up to 6 operations, widths 2..100; (F) values held by 64..128-bit objects copied into core words; '
+        '(G) + - * on operands of at most 52 bits stored through out= / op_out into wrap registers of 64..128 bits with any fraction length 0..n_word. '
         'Non-trivial = the rounded input is outside the range (a wrap actually happens); distinct by full input.')
 ASSUMPTIONS = ['the period law is enforced in the forms that are consequences of the congruence (see DESIGN.md C03 interpretation decision)']
 
@@ -186,6 +187,46 @@ def run_register(cases, res):
         if codes_seq != want:
             res.fail(c, 'C03: arithmetic stored with wrap is not the n_word-bit register result', expected=want, got=codes_seq)
 
+def outreg_cases(rng, n):
+    cases = []
+    for _ in range(n):
+        def f():
+            nw = rng.choice([8, 16, 24, 31, 32, 40, 48, rng.randint(2, 52)]); return [rng.random() < 0.6, nw, rng.choice([0, 0, 1, nw // 2, nw])]
+        fxm, fym = f(), f()
+        nwo = rng.choice([64, 65, 72, 100, 128]); nfo = rng.choice([0, 1, 16, 30, 40, 63, 64, rng.randint(0, nwo)])
+        def code(fm):
+            lo, hi = S.fmt_bounds(fm[0], fm[1]); return rng.choice([lo, hi, hi - 1, lo + 1, rng.randint(lo, hi), rng.randint(lo, hi)])
+        cases.append({'x': fxm, 'cx': code(fxm), 'y': fym, 'cy': code(fym), 'op': rng.choice(['+', '-', '*', '*']), 'out': [rng.random() < 0.7, nwo, nfo],
+                      'r': rng.choice(RMODES), 'route': rng.choice(['out', 'op_out'])})
+    return cases
+
+def run_outreg(cases, res):
+    """x (op) y on operands of at most 52 bits, stored through out= into a wrap register of 64 bits or more (any fraction length):
+    the register holds the residue of the exact result, whatever the size of the rescaled intermediate"""
+    fx = lib.impl()
+    pend = []; reqs = []
+    for c in cases:
+        try:
+            x = fx.Fxp(c['cx'], *c['x'], raw=True); y = fx.Fxp(c['cy'], *c['y'], raw=True)
+            out = fx.Fxp(None, *c['out'], overflow='wrap', rounding=c['r'])
+            if c['route'] == 'out':
+                z = {'+': fx.add, '-': fx.sub, '*': fx.mul}[c['op']](x, y, out=out)
+            else:
+                x.config.op_out = out
+                z = x + y if c['op'] == '+' else (x - y if c['op'] == '-' else x * y)
+            got = (lib.codes_of(z)[0], z is out, (bool(z.signed), int(z.n_word), int(z.n_frac)))
+        except Exception as e:
+            res.fail(c, 'C03: arithmetic into a wide wrap register raised %s' % lib.exc_name(e), got=str(e)[:200]); continue
+        xv = Fraction(c['cx'], 1) / (1 << c['x'][2]); yv = Fraction(c['cy'], 1) / (1 << c['y'][2])
+        ex = xv + yv if c['op'] == '+' else (xv - yv if c['op'] == '-' else xv * yv)
+        pend.append((c, got)); reqs.append([4] + e_fmt(*c['out']) + [RMODES.index(c['r']), 1] + e_list([ex], e_dy))
+    for (c, got), o in zip(pend, model_call(reqs)):
+        rd = Reader(o); want = rd.lst(rd.z)[0]
+        res.count('G:narrow-operands-into-wide-register', key=repr(c), nontrivial=True)
+        res.sample(c)
+        if got != (want, True, tuple(c['out'])):
+            res.fail(c, 'C03: arithmetic stored through out= into a wrap register of 64 bits or more is not the residue of the exact result', expected=(want, True, tuple(c['out'])), got=got)
+
 def shard(shard, nshards, rng, tier, extra):
     res = Result()
     nwmax = 3 if tier == 'quick' else 6
@@ -208,6 +249,7 @@ def shard(shard, nshards, rng, tier, extra):
     run_wide(wide_cases(rng, (2500 if tier == 'quick' else 60000) // nshards), res)
     run_register(register_cases(rng, (1200 if tier == 'quick' else 30000) // nshards), res)
     run_widesrc(widesrc_cases(rng, (600 if tier == 'quick' else 15000) // nshards), res)
+    run_outreg(outreg_cases(rng, (800 if tier == 'quick' else 20000) // nshards), res)
     res.exhaustive = True
     return res
 
@@ -233,6 +275,7 @@ def replay(payload):
     if 'vals' in c: check_store_cases([c], res, 'replay', 'C03')
     elif 'steps' in c: c['steps'] = [tuple(t) for t in c['steps']]; run_register([c], res)
     elif 'src' in c: run_widesrc([c], res)
+    elif 'out' in c: run_outreg([c], res)
     elif 'v2' in c:
         c['v'] = Fraction(c['v']); c['v2'] = Fraction(c['v2']); run_period([c], res)
     else: run_wide([c], res)
